@@ -2,6 +2,7 @@
 package mount
 
 import (
+	"errors"
 	"io"
 	"strings"
 	"sync"
@@ -216,6 +217,13 @@ func (fs *FS) Rename(oldname, newname string) error {
 	closeErr := newFile.Close()
 	if err == nil {
 		err = closeErr
+	}
+	if err == nil {
+		// OpenFile only applies the mode when it creates the file: an existing destination keeps its own otherwise
+		err = hackpadfs.Chmod(newMount, newSubPath, oldInfo.Mode())
+		if errors.Is(err, hackpadfs.ErrNotImplemented) {
+			err = nil
+		}
 	}
 	if err == nil {
 		err = hackpadfs.Remove(oldMount, oldSubPath)
